@@ -312,6 +312,31 @@ pub fn check_whole(alg: similar::Algorithm, old: &[u8], new: &[u8]) -> Result<(b
             .iter()
             .map(|op| d.iter_changes(op).map(|c| flat(&c)).collect::<Vec<_>>())
             .collect();
+        // whole-diff iteration however it is consumed (quick tier: up to 8 items in total)
+        if modes_wanted(old.len() + new.len(), 8) {
+            if let Err(e) = consumption_modes(&|| "TextDiff::iter_all_changes".to_string(), || d.iter_all_changes(), |c| flat(&c)) {
+                panic!("{}", e);
+            }
+            // the derived comparisons of the returned values agree with their contents
+            let all_c: Vec<_> = d.iter_all_changes().collect();
+            for a in &all_c {
+                for b in &all_c {
+                    let same = flat(a) == flat(b);
+                    if (a == b) != same || (a.cmp(b) == std::cmp::Ordering::Equal) != same {
+                        panic!("Change values {:?} and {:?}: == / cmp disagree with their contents", flat(a), flat(b));
+                    }
+                    if same {
+                        use std::hash::{Hash, Hasher};
+                        let (mut ha, mut hb) = (std::collections::hash_map::DefaultHasher::new(), std::collections::hash_map::DefaultHasher::new());
+                        a.hash(&mut ha);
+                        b.hash(&mut hb);
+                        if ha.finish() != hb.finish() {
+                            panic!("equal Change values hash differently");
+                        }
+                    }
+                }
+            }
+        }
         let mut hunks = vec![];
         for radius in [0usize, 1, 3] {
             let mut u = d.unified_diff();
